@@ -108,3 +108,6 @@ def run(ctx):
     # ---- R06.10 the whole-instance graceful quit is a graceful stop of every job - rules owned by C08
     ctx.rule("R06.10", "the graceful quit path stops each job through the same graceful stop: signal and grace as given, no urgent kill behind it")
     ctx.borrow("C08", ["R08.3", "R08.5"], "R06.10", "quit_gracefully records (signal, grace) for every argument value; each job gets stop_with_signal(signal, grace) then a normal-priority delete")
+
+    ctx.rule("R06.12", "a job created in the same action that asks for the graceful quit is stopped gracefully too")
+    ctx.borrow("C08", ["R08.1"], "R06.12", "the new job tasks of an action are taken over before the quit decision on every path")
